@@ -12,8 +12,9 @@
 (*                                           the recording backend pipeline, the PUBACK read         *)
 (*   miss {c,m}                              (after the barriers) c has not received m - accepted only *)
 (*                                           if the contract owed it: a certified Fanout violation     *)
-(*   stuck {c,m}                             the deadline passed without a retransmission of c's oldest *)
-(*                                           unacknowledged message m - accepted only if that is so     *)
+(*   stuck {c,m,n0}                          the deadline passed without a retransmission of c's oldest *)
+(*                                           unacknowledged message m (n0 receptions when the harness    *)
+(*                                           began to wait) - accepted only if the log agrees             *)
 (*   settle                                  the harness has drained all deliveries (goroutine and   *)
 (*                                           ping barriers) and has waited (generous deadline) for    *)
 (*                                           the retransmission of every session's oldest             *)
@@ -83,7 +84,8 @@ TPipe == /\ IsEvent("pipe")
                                   /\ piped' = piped \cup {i}
          /\ Keep /\ UNCHANGED <<vars, msgs, got, ackd, up, upack, owed, mayget, waived, pidm, viol>>
 TCPuback == /\ IsEvent("cpuback")
-            /\ \E i \in 1..Len(up) : up[i].c = E.c /\ up[i].q = 1 /\ up[i].pid = E.pid
+            /\ Cardinality({i \in 1..Len(up) : up[i].c = E.c /\ up[i].q = 1 /\ up[i].pid = E.pid})       \* one PUBACK per PUBLISH, same id
+                 > Cardinality({j \in 1..Len(upack) : upack[j] = [c |-> E.c, pid |-> E.pid]})
             /\ upack' = Append(upack, [c |-> E.c, pid |-> E.pid])
             /\ Keep /\ UNCHANGED <<vars, msgs, got, ackd, up, piped, owed, mayget, waived, pidm, viol>>
 
@@ -95,7 +97,8 @@ TMiss == /\ IsEvent("miss")
          /\ viol' = viol \cup {<<"miss", E.c, E.m>>}
          /\ UNCHANGED <<dvars, owed, mayget, waived, pidm>>
 TStuck == /\ IsEvent("stuck")
-          /\ Unacked(E.c) # <<>> /\ Head(Unacked(E.c)) = E.m /\ Count(got[E.c], E.m) < 2
+          /\ Unacked(E.c) # <<>> /\ Head(Unacked(E.c)) = E.m
+          /\ Count(got[E.c], E.m) = E.n0          \* no reception since the harness started to wait (E.n0 receptions then)
           /\ viol' = viol \cup {<<"stuck", E.c, E.m>>}
           /\ UNCHANGED <<dvars, owed, mayget, waived, pidm>>
 
